@@ -429,6 +429,16 @@ pub struct RequestId {
 #[derive(Debug, Copy, Clone, PartialEq, Eq)]
 struct UniqueConnecId(u64);
 
+#[cfg(libp2p_verif)]
+impl RequestId {
+    /// Verification hook: constructor for the otherwise unnameable request id.
+    pub fn verif_new(n: u64) -> Self {
+        RequestId {
+            connec_unique_id: UniqueConnecId(n),
+        }
+    }
+}
+
 impl Handler {
     pub fn new(
         protocol_config: ProtocolConfig,
